@@ -404,6 +404,10 @@ func (m pathmap) str(prefix, indent, curindent string) string {
 }
 
 func (m pathmap) add(path []string, v interface{}) {
+	if len(path) == 0 {
+		// A value for the root itself is shown under an empty name.
+		path = []string{""}
+	}
 	if len(path) == 1 {
 		m[path[0]] = v
 		return
